@@ -51,7 +51,7 @@
 	    VP_D(g_sys.calls) == VP_D(g_sys.n_ok) + VP_D(g_sys.n_intr) &&                            \
 	    (VP_D(g_pops) == 0 ? ((q).s.orig == LE((q).s.orig)) : !(q).s.orig) &&                        \
 	    (VP_D(g_fin_calls) > 0 ==> VP_FIN_IS_OK_CALL) &&                                       \
-	    ((VP_D(g_pops) == 1 && LE((q).s.orig) && LE((q).s.n) > 0) ==> g_pop_last == (q).first) &&  \
+	    ((VP_D(g_pops) == 1 && LE((q).s.orig) && LE((q).s.n) > 0) ==> (g_pop_last == (q).first && g_sys.ok_head == (q).first && g_sys.ok_count0 == vp_c0)) &&  \
 	    ((q).s.n == 0 || ((q).s.orig ? (VP_AIO_WF((q).first) && (q).first->a_count == vp_c0) : VP_AIO_WF((q).later))))
 /* error / close loops: every removal is followed by the completion of that aio with the code */
 #define VP_DRAIN_INV(code)                                                                    \
